@@ -604,6 +604,12 @@ NextFast == Finish \/ \E c \in Cmds(st) : Step(c)
 SpecFast == Init /\ [][NextFast]_vars
 
 View == <<st, idx>>
+\* With View, a state is continued only from the first history that reached it, and which one is first depends
+\* on TLC's worker scheduling.  ViewLast2 also keeps the last two commands, so every state is continued from
+\* every distinct two-command ending (used by the small failover focus, where the ORDER of promote and
+\* node-state commands matters to a defect although it does not matter to the model state).
+Last2(h) == IF Len(h) <= 2 THEN [k \in 1..Len(h) |-> h[k].c] ELSE <<h[Len(h)-1].c, h[Len(h)].c>>
+ViewLast2 == <<st, idx, Last2(hist)>>
 
 -----------------------------------------------------------------------------
 \* C22, model level
